@@ -349,6 +349,14 @@ fn run_case(c: &Case, out: &mut Out) {
         "fmt" => op_fmt(c, out),
         "describe" => op_describe(c, out),
         "dedup" => op_dedup(c, out),
+        "describe_all" => {
+            let reg = registry(c);
+            for t in reg.types.iter() {
+                let _ = scale_typegen_description::type_description(t.id, &reg, false);
+                let _ = scale_typegen_description::type_description(t.id, &reg, true);
+            }
+            out.put("ok", "all");
+        }
         "gen" => op_gen(c, out),
         "standalone" => op_standalone(c, out),
         "validate" => op_validate(c, out),
